@@ -37,6 +37,11 @@ type FuncTarget struct {
 	Types  map[string]string `json:"types"` // named type → builtin kind (e.g. "sutils.FilterOperator":"int")
 	Consts map[string]string `json:"consts"` // selector constants → Lean names, e.g. "sutils.Equals":"FilterOperator_Equals"
 	Calls  map[string]string `json:"calls"`  // calls to other translated kernels: Go callee → "LeanName:resultKind", e.g. "utils.IsTimeInNano":"IsTimeInNano:bool"
+	// --- extensions used by the bin/aligntime kernel (C04): all opt-in per target
+	Import     string            `json:"import"`     // extra Lean module imported by the generated module (hand-written primitives)
+	Methods    map[string]string `json:"methods"`    // method calls recv.M(args): "M" → "LeanName:resultKind"; the receiver is passed as the first argument
+	ExactFloat bool              `json:"exactFloat"` // float64 +,-,*,/ , math.Floor, float64(int), int(float) are emitted as EXACT rational arithmetic (Rat); sound only
+	// where the caller's theorems/guards keep every intermediate value exactly representable (stated in the property's trusted base)
 }
 type ConstTarget struct {
 	File   string   `json:"file"`
@@ -64,6 +69,10 @@ type StructLitTarget struct { // the key=value elements of every composite liter
 	Type string   `json:"type"` // e.g. "structs.SegMeta"
 	Key  string   `json:"key"`
 	Stop []string `json:"stop"` // callees NOT to look into (protocol functions with a fact of their own)
+	// C06 (flag table of the DataProcessor constructors): Values: literals, identifiers and !identifier are kept as written
+	// ("false", "\"bin\""; a negated local as "!local") instead of being normalised to "local"; Fields: keep only these keys of the literal
+	Values bool     `json:"values"`
+	Fields []string `json:"fields"`
 }
 type Spec struct {
 	Functions []FuncTarget      `json:"functions"`
@@ -71,6 +80,7 @@ type Spec struct {
 	CallOrder []CallOrderTarget `json:"callorder"`
 	Literals  []LitTarget       `json:"literals"`
 	StructLits []StructLitTarget `json:"structlits"`
+	PkgVars    []PkgVarTarget    `json:"pkgvars"` // pkgvars.go
 }
 
 var fset = token.NewFileSet()
@@ -106,6 +116,7 @@ type tr struct {
 	fields map[string]map[string]string
 	ver    map[string]int
 	optRes bool // function returns (T, error): emitted as Option T (nil error → some, anything else → none)
+	ptr    map[string]bool // pointer parameters of a scalar type: emitted as (name_nil : Bool) (name : T); `name == nil` reads name_nil
 }
 
 func (x *tr) kindOfType(e ast.Expr) string {
@@ -119,6 +130,9 @@ func (x *tr) kindOfType(e ast.Expr) string {
 		}
 		if v.Name == "float64" || v.Name == "float32" {
 			return "float"
+		}
+		if v.Name == "opaque" { // a value that is only handed to the primitives named in "methods"/"calls" (e.g. time.Time)
+			return "opaque"
 		}
 		if k, ok := x.t.Types[v.Name]; ok {
 			return x.kindOfType(ast.NewIdent(k))
@@ -233,14 +247,45 @@ func (x *tr) expr(e ast.Expr) (string, string) {
 	case *ast.CallExpr:
 		// cast?
 		if len(v.Args) == 1 {
-			if id, ok := v.Fun.(*ast.Ident); ok {
-				if k, ok := intKinds[id.Name]; ok {
-					s, ak := x.expr(v.Args[0])
-					if ak == "float" || ak == "bool" {
-						fail("cast from %s", ak)
-					}
-					return "(wrap" + k + " " + s + ")", k
+			fname := exprStr(v.Fun)
+			k, isInt := intKinds[fname]
+			if !isInt {
+				if tk, ok := x.t.Types[fname]; ok {
+					k, isInt = intKinds[tk]
 				}
+			}
+			if _, isId := v.Fun.(*ast.Ident); !isId {
+				if _, isSel := v.Fun.(*ast.SelectorExpr); !isSel {
+					isInt = false
+				}
+			}
+			if isInt {
+				s, ak := x.expr(v.Args[0])
+				if ak == "float" && x.t.ExactFloat {
+					// Go: conversion of a float to an integer type discards the fraction (truncation toward zero)
+					return "(wrap" + k + " (SigModel.TimePrims.ratTrunc " + s + "))", k
+				}
+				if ak == "float" || ak == "bool" || ak == "opaque" {
+					fail("cast from %s", ak)
+				}
+				return "(wrap" + k + " " + s + ")", k
+			}
+			if (fname == "float64") && x.t.ExactFloat {
+				s, ak := x.expr(v.Args[0])
+				if ak == "float" {
+					return s, "float"
+				}
+				if ak == "bool" || ak == "opaque" {
+					fail("cast from %s", ak)
+				}
+				return "((" + s + " : Int) : Rat)", "float"
+			}
+			if fname == "math.Floor" && x.t.ExactFloat {
+				s, ak := x.expr(v.Args[0])
+				if ak != "float" {
+					fail("math.Floor of %s", ak)
+				}
+				return "((Rat.floor " + s + " : Int) : Rat)", "float"
 			}
 		}
 		if spec, ok := x.t.Calls[exprStr(v.Fun)]; ok {
@@ -251,15 +296,45 @@ func (x *tr) expr(e ast.Expr) (string, string) {
 			out := "(" + parts[0]
 			for _, a := range v.Args {
 				s, k := x.expr(a)
-				if k == "float" || k == "bool" {
+				if (k == "float" && !x.t.ExactFloat) || k == "bool" {
 					fail("call argument of kind %s", k)
 				}
 				out += " " + s
 			}
 			return out + ")", parts[1]
 		}
+		if se, ok := v.Fun.(*ast.SelectorExpr); ok {
+			if spec, ok := x.t.Methods[se.Sel.Name]; ok {
+				parts := strings.SplitN(spec, ":", 2)
+				if len(parts) != 2 {
+					fail("methods entry %q must be LeanName:kind", spec)
+				}
+				rs, rk := x.expr(se.X)
+				if rk == "bool" || rk == "float" {
+					fail("method receiver of kind %s", rk)
+				}
+				out := "(" + parts[0] + " " + rs
+				for _, a := range v.Args {
+					s, k := x.expr(a)
+					if k == "float" || k == "bool" {
+						fail("method argument of kind %s", k)
+					}
+					out += " " + s
+				}
+				return out + ")", parts[1]
+			}
+		}
 		fail("call %s", exprStr(v.Fun))
 	case *ast.BinaryExpr:
+		if yid, ok := v.Y.(*ast.Ident); ok && yid.Name == "nil" && (v.Op == token.EQL || v.Op == token.NEQ) {
+			if xid, ok := v.X.(*ast.Ident); ok && x.ptr[xid.Name] {
+				if v.Op == token.EQL {
+					return xid.Name + "_nil", "bool"
+				}
+				return "(!" + xid.Name + "_nil)", "bool"
+			}
+			fail("comparison of %s with nil", exprStr(v.X))
+		}
 		a, ka := x.expr(v.X)
 		b, kb := x.expr(v.Y)
 		k := ka
@@ -268,6 +343,9 @@ func (x *tr) expr(e ast.Expr) (string, string) {
 		}
 		if ka != kb && ka != "untyped" && kb != "untyped" {
 			fail("mixed kinds %s %s in %s", ka, kb, v.Op)
+		}
+		if k == "opaque" {
+			fail("operator %s on an opaque value", v.Op)
 		}
 		if k == "float" { // untyped integer literal in float context
 			if ka == "untyped" {
@@ -295,12 +373,19 @@ func (x *tr) expr(e ast.Expr) (string, string) {
 			op := map[token.Token]string{token.EQL: "=", token.NEQ: "≠", token.LSS: "<", token.LEQ: "≤", token.GTR: ">", token.GEQ: "≥"}[v.Op]
 			return "(decide (" + a + " " + op + " " + b + "))", "bool"
 		case token.ADD, token.SUB, token.MUL:
+			if k == "float" && x.t.ExactFloat {
+				op := map[token.Token]string{token.ADD: "+", token.SUB: "-", token.MUL: "*"}[v.Op]
+				return "(" + a + " " + op + " " + b + ")", "float"
+			}
 			if k == "float" || k == "bool" {
 				fail("arithmetic on %s", k)
 			}
 			op := map[token.Token]string{token.ADD: "+", token.SUB: "-", token.MUL: "*"}[v.Op]
 			return x.wrap(k, "("+a+" "+op+" "+b+")"), k
 		case token.QUO:
+			if k == "float" && x.t.ExactFloat {
+				return "(" + a + " / " + b + ")", "float"
+			}
 			if k == "float" || k == "bool" {
 				fail("division on %s", k)
 			}
@@ -574,6 +659,22 @@ func (x *tr) restore(s [2]map[string]string) {
 	}
 }
 
+// does the body of fd compare the identifier `name` with nil?  (only then a pointer parameter gets its name_nil flag)
+func comparesWithNil(fd *ast.FuncDecl, name string) bool {
+	found := false
+	ast.Inspect(fd.Body, func(n ast.Node) bool {
+		if be, ok := n.(*ast.BinaryExpr); ok && (be.Op == token.EQL || be.Op == token.NEQ) {
+			xi, ok1 := be.X.(*ast.Ident)
+			yi, ok2 := be.Y.(*ast.Ident)
+			if ok1 && ok2 && xi.Name == name && yi.Name == "nil" {
+				found = true
+			}
+		}
+		return true
+	})
+	return found
+}
+
 func findFunc(f *ast.File, recv, name string) *ast.FuncDecl {
 	for _, d := range f.Decls {
 		fd, ok := d.(*ast.FuncDecl)
@@ -642,7 +743,7 @@ func translate(repo string, t *FuncTarget) (lean string, err error) {
 	if fd == nil {
 		return "", fmt.Errorf("function not found")
 	}
-	x := &tr{t: t, file: f, vars: map[string]string{}, ver: map[string]int{}}
+	x := &tr{t: t, file: f, vars: map[string]string{}, ver: map[string]int{}, ptr: map[string]bool{}}
 	x.fields = map[string]map[string]string{}
 	x.fields = structFields(f, x)
 	var params []string
@@ -660,6 +761,10 @@ func translate(repo string, t *FuncTarget) (lean string, err error) {
 				params = append(params, fmt.Sprintf("(%s_%s : %s)", name, fn, leanTy(fm[fn])))
 			}
 			return
+		}
+		if _, isPtr := ty.(*ast.StarExpr); isPtr && comparesWithNil(fd, name) {
+			x.ptr[name] = true
+			params = append(params, fmt.Sprintf("(%s_nil : Bool)", name))
 		}
 		params = append(params, fmt.Sprintf("(%s : %s)", name, leanTy(k)))
 	}
@@ -962,6 +1067,9 @@ func readsInHelper(f *ast.File, fn string) []string {
 // separated by "|".  Expressions are normalised: a selector on the method receiver becomes "recv.<field>", anything
 // else that is not a selector chain (locals, parameters, calls) becomes "local" — the fact says WHICH RUNNING FIELD
 // feeds which field of the record, not how the variables are called.
+var structLitValues bool
+var structLitFields map[string]bool
+
 func structLits(file *ast.File, fd *ast.FuncDecl, typ string, follow int, stop map[string]bool) []string {
 	var res []string
 	recv := ""
@@ -974,6 +1082,21 @@ func structLits(file *ast.File, fd *ast.FuncDecl, typ string, follow int, stop m
 				return "recv." + se.Sel.Name
 			}
 			return exprString(e)
+		}
+		if structLitValues {
+			// literals and true / false as written; a negated local as "!local" (the NAME of a local is not part of the fact)
+			switch v := e.(type) {
+			case *ast.BasicLit:
+				return exprString(e)
+			case *ast.Ident:
+				if v.Name == "true" || v.Name == "false" {
+					return v.Name
+				}
+			case *ast.UnaryExpr:
+				if _, ok := v.X.(*ast.Ident); ok && v.Op == token.NOT {
+					return "!local"
+				}
+			}
 		}
 		return "local"
 	}
@@ -1027,6 +1150,9 @@ func structLits(file *ast.File, fd *ast.FuncDecl, typ string, follow int, stop m
 					}
 					for _, el := range y.Elts {
 						if kv, ok := el.(*ast.KeyValueExpr); ok {
+							if structLitFields != nil && !structLitFields[exprString(kv.Key)] {
+								continue
+							}
 							res = append(res, exprString(kv.Key)+"="+norm(kv.Value))
 						} else {
 							res = append(res, "="+norm(el))
@@ -1095,6 +1221,7 @@ func main() {
 		return mods[name]
 	}
 	facts := map[string]interface{}{}
+	extraImports := map[string][]string{}
 	rc := 0
 	// constants first (functions may refer to them)
 	for _, c := range spec.Consts {
@@ -1147,6 +1274,19 @@ func main() {
 			continue
 		}
 		w.WriteString(lean + "\n")
+		if t.Import != "" {
+			mn := t.Module
+			if mn == "" {
+				mn = "Kernels"
+			}
+			dup := false
+			for _, e := range extraImports[mn] {
+				dup = dup || e == t.Import
+			}
+			if !dup {
+				extraImports[mn] = append(extraImports[mn], t.Import)
+			}
+		}
 	}
 	for _, c := range spec.CallOrder {
 		f, err := parseFile(*repo, c.File)
@@ -1180,6 +1320,9 @@ func main() {
 		}
 		facts[c.Key] = literalsOf(fd)
 	}
+	if !pkgVarFacts(*repo, spec.PkgVars, facts) { // package-level variables a set of functions refers to (pkgvars.go)
+		rc = 1
+	}
 	for _, c := range spec.StructLits {
 		f, err := parseFile(*repo, c.File)
 		if err != nil {
@@ -1197,7 +1340,16 @@ func main() {
 		for _, n := range c.Stop {
 			stop[n] = true
 		}
+		structLitValues = c.Values
+		structLitFields = nil
+		if len(c.Fields) > 0 {
+			structLitFields = map[string]bool{}
+			for _, n := range c.Fields {
+				structLitFields[n] = true
+			}
+		}
 		facts[c.Key] = structLits(f, fd, c.Type, 2, stop)
+		structLitValues, structLitFields = false, nil
 	}
 	var names []string
 	for n := range mods {
@@ -1208,6 +1360,9 @@ func main() {
 		imp := ""
 		if n != "Consts" && mods["Consts"] != nil {
 			imp = "import SigModel.Gen.Consts\n"
+		}
+		for _, e := range extraImports[n] {
+			imp += "import " + e + "\n"
 		}
 		src := "/- GENERATED by tools/go2lean from the repository's current source. DO NOT EDIT. -/\nimport SigModel.Model.MachInt\n" + imp + "namespace SigModel.Gen\nopen SigModel.MachInt\n\n" + mods[n].String() + "\nend SigModel.Gen\n"
 		if err := os.WriteFile(filepath.Join(*out, n+".lean"), []byte(src), 0o644); err != nil {
